@@ -1,83 +1,63 @@
 //! C15 -- traversal visits every node once, in order; filter and find agree with it.
-//! Node identity = the offset of its symbol range (every node of a harness tree gets a distinct id).
+//! Node identity = the offset of its symbol range (every node of a harness tree gets a distinct id).  The expected visiting
+//! order is produced by the tree *builder* (it knows the shape it builds), never by walking the heap, and the visiting closure
+//! compares on the fly -- so the only loops/recursion CBMC has to unwind are those of the code under test.
 use crate::common::*;
 use aidl_parser::ast;
 use aidl_parser::symbol::Symbol;
 use aidl_parser::traverse::{self, SymbolFilter};
 
-pub const CAP: usize = 24;
-
-/// Symbolic type shape: 0 leaf, 1 array, 2 list, 3 map; ids are assigned in construction order.
-pub fn mk_type(c: &[u8], cur: &mut usize, depth: u8, id: &mut usize) -> ast::Type {
-    let ch = if *cur < c.len() { c[*cur] } else { 0 };
-    *cur += 1;
-    *id += 1;
-    let my = *id;
-    if depth == 0 || ch == 0 || ch > 3 {
-        return leaf(CAT_PRIMITIVE, my);
-    }
-    let a = mk_type(c, cur, depth - 1, id);
-    match ch {
-        1 => container(ast::TypeKind::Array, vec![a], my),
-        2 => container(ast::TypeKind::List, vec![a], my),
-        _ => { let b = mk_type(c, cur, depth - 1, id); container(ast::TypeKind::Map, vec![a, b], my) }
-    }
-}
+pub const CAP: usize = 20;
 
 pub struct Seq { pub v: [usize; CAP], pub n: usize }
 impl Seq {
     pub fn new() -> Self { Seq { v: [0; CAP], n: 0 } }
     pub fn push(&mut self, x: usize) { if self.n < CAP { self.v[self.n] = x; } self.n += 1; }
+    pub fn at(&self, k: usize) -> usize { if k < CAP { self.v[k] } else { 0 } }
 }
 
-/// Reference order of a type subtree: an array's element before the array, otherwise the node before its parameters.
-pub fn ref_type(t: &ast::Type, out: &mut Seq) {
-    if t.kind == ast::TypeKind::Array {
-        let mut i = 0; while i < t.generic_types.len() { ref_type(&t.generic_types[i], out); i += 1; }
-        out.push(t.symbol_range.start.offset);
+/// Symbolic type shape from codes c[cur..]: 0 leaf, 1 array, 2 list, 3 map (two sub-trees).  Ids are assigned in construction
+/// order; `out` receives the ids in the order the property prescribes (an array's element before the array, otherwise the
+/// node before its parameters).
+pub fn mk_type(c: &[u8], cur: &mut usize, depth: u8, id: &mut usize, out: &mut Seq) -> ast::Type {
+    let ch = if *cur < c.len() { c[*cur] } else { 0 };
+    *cur += 1;
+    *id += 1;
+    let my = *id;
+    if depth == 0 || ch == 0 || ch > 3 {
+        out.push(my);
+        return leaf(CAT_PRIMITIVE, my);
+    }
+    if ch == 1 {
+        let a = mk_type(c, cur, depth - 1, id, out);
+        out.push(my);
+        return container(ast::TypeKind::Array, vec![a], my);
+    }
+    out.push(my);
+    let a = mk_type(c, cur, depth - 1, id, out);
+    if ch == 2 {
+        container(ast::TypeKind::List, vec![a], my)
     } else {
-        out.push(t.symbol_range.start.offset);
-        let mut i = 0; while i < t.generic_types.len() { ref_type(&t.generic_types[i], out); i += 1; }
+        let b = mk_type(c, cur, depth - 1, id, out);
+        container(ast::TypeKind::Map, vec![a, b], my)
     }
 }
 
-/// Reference pre-order of the whole tree at level: 0 = ItemsOnly, 1 = ItemsAndItemElements, 2 = All.
-pub fn ref_symbols(a: &ast::Aidl, level: u8, out: &mut Seq) {
-    if level == 2 {
-        out.push(a.package.symbol_range.start.offset);
-        let mut i = 0; while i < a.imports.len() { out.push(a.imports[i].symbol_range.start.offset); i += 1; }
+/// Spine shapes for depth 3: 0 leaf, 1 array, 2 list, 3 map(leaf, x), 4 map(x, leaf).
+pub fn mk_spine(c: &[u8], cur: &mut usize, depth: u8, id: &mut usize, out: &mut Seq) -> ast::Type {
+    let ch = if *cur < c.len() { c[*cur] } else { 0 };
+    *cur += 1;
+    *id += 1;
+    let my = *id;
+    if depth == 0 || ch == 0 || ch > 4 {
+        out.push(my);
+        return leaf(CAT_PRIMITIVE, my);
     }
-    out.push(a.item.get_symbol_range().start.offset);
-    if level == 0 { return; }
-    match &a.item {
-        ast::Item::Interface(it) => {
-            let mut i = 0;
-            while i < it.elements.len() {
-                match &it.elements[i] {
-                    ast::InterfaceElement::Method(m) => {
-                        out.push(m.symbol_range.start.offset);
-                        if level == 2 {
-                            ref_type(&m.return_type, out);
-                            let mut j = 0;
-                            while j < m.args.len() { out.push(m.args[j].symbol_range.start.offset); ref_type(&m.args[j].arg_type, out); j += 1; }
-                        }
-                    }
-                    ast::InterfaceElement::Const(c) => { out.push(c.symbol_range.start.offset); if level == 2 { ref_type(&c.const_type, out); } }
-                }
-                i += 1;
-            }
-        }
-        ast::Item::Parcelable(p) => {
-            let mut i = 0;
-            while i < p.elements.len() {
-                match &p.elements[i] {
-                    ast::ParcelableElement::Field(f) => { out.push(f.symbol_range.start.offset); if level == 2 { ref_type(&f.field_type, out); } }
-                    ast::ParcelableElement::Const(c) => { out.push(c.symbol_range.start.offset); if level == 2 { ref_type(&c.const_type, out); } }
-                }
-                i += 1;
-            }
-        }
-        ast::Item::Enum(e) => { let mut i = 0; while i < e.elements.len() { out.push(e.elements[i].symbol_range.start.offset); i += 1; } }
+    match ch {
+        1 => { let a = mk_spine(c, cur, depth - 1, id, out); out.push(my); container(ast::TypeKind::Array, vec![a], my) }
+        2 => { out.push(my); let a = mk_spine(c, cur, depth - 1, id, out); container(ast::TypeKind::List, vec![a], my) }
+        3 => { out.push(my); *id += 1; let l = *id; out.push(l); let a = mk_spine(c, cur, depth - 1, id, out); container(ast::TypeKind::Map, vec![leaf(CAT_PRIMITIVE, l), a], my) }
+        _ => { out.push(my); let a = mk_spine(c, cur, depth - 1, id, out); *id += 1; let l = *id; out.push(l); container(ast::TypeKind::Map, vec![a, leaf(CAT_PRIMITIVE, l)], my) }
     }
 }
 
@@ -85,141 +65,192 @@ pub fn filter_of(level: u8) -> SymbolFilter {
     match level { 0 => SymbolFilter::ItemsOnly, 1 => SymbolFilter::ItemsAndItemElements, _ => SymbolFilter::All }
 }
 
-fn assert_same(got: &Seq, exp: &Seq) {
-    assert!(got.n == exp.n, "number of visited symbols equals the number of nodes");
-    assert!(exp.n <= CAP);
-    let mut k = 0;
-    while k < CAP { if k < exp.n { assert!(got.v[k] == exp.v[k], "symbols are visited in source order (element before array)"); } k += 1; }
-}
-
-fn interface_tree(ret: ast::Type, argt: ast::Type, constt: ast::Type) -> ast::Aidl {
+pub fn interface_tree(ret: ast::Type, argt: ast::Type, constt: ast::Type) -> ast::Aidl {
     let m = method(false, ret, vec![arg(direction(1, 61), argt, 62)], 50);
     let c = constant(constt, 70);
     let it = ast::Interface { oneway: false, name: String::new(), elements: vec![ast::InterfaceElement::Method(m), ast::InterfaceElement::Const(c)], annotations: Vec::new(), doc: None, full_range: rng(1), symbol_range: rng(2) };
     ast::Aidl { package: package(3), imports: vec![import(5)], declared_parcelables: Vec::new(), item: ast::Item::Interface(it) }
 }
 
-fn parcelable_tree(ft: ast::Type, constt: ast::Type) -> ast::Aidl {
+pub fn parcelable_tree(ft: ast::Type, constt: ast::Type) -> ast::Aidl {
     let p = ast::Parcelable { name: String::new(), elements: vec![ast::ParcelableElement::Field(field(ft, 50)), ast::ParcelableElement::Const(constant(constt, 70))], annotations: Vec::new(), doc: None, full_range: rng(1), symbol_range: rng(2) };
     ast::Aidl { package: package(3), imports: vec![import(5)], declared_parcelables: Vec::new(), item: ast::Item::Parcelable(p) }
 }
 
-fn enum_tree(n: usize) -> ast::Aidl {
-    let mut els = Vec::new();
-    let mut i = 0;
-    while i < n { els.push(ast::EnumElement { name: String::new(), value: None, doc: None, symbol_range: rng(50 + i), full_range: rng(60 + i) }); i += 1; }
+pub fn enum_tree() -> ast::Aidl {
+    let els = vec![ast::EnumElement { name: String::new(), value: None, doc: None, symbol_range: rng(50), full_range: rng(60) },
+                   ast::EnumElement { name: String::new(), value: None, doc: None, symbol_range: rng(51), full_range: rng(61) }];
     let e = ast::Enum { name: String::new(), elements: els, annotations: Vec::new(), doc: None, full_range: rng(1), symbol_range: rng(2) };
     ast::Aidl { package: package(3), imports: vec![import(5)], declared_parcelables: Vec::new(), item: ast::Item::Enum(e) }
 }
 
-macro_rules! order_body {
-    ($a:expr, $level:expr) => {{
-        let a = $a;
-        let level: u8 = $level;
-        let mut exp = Seq::new();
-        ref_symbols(&a, level, &mut exp);
-        let mut got = Seq::new();
-        traverse::walk_symbols(&a, filter_of(level), |s| got.push(s.get_range().start.offset));
-        assert_same(&got, &exp);
-        std::mem::forget(a);
-    }};
+/// Walk at level All and compare with `exp` on the fly.
+fn check_walk_all(a: &ast::Aidl, exp: &Seq) {
+    let mut n = 0usize;
+    let mut ok = true;
+    traverse::walk_symbols(a, SymbolFilter::All, |s| { if s.get_range().start.offset != exp.at(n) { ok = false; } n += 1; });
+    assert!(n == exp.n, "every node is visited exactly once (number of visits = number of nodes)");
+    assert!(ok, "symbols are visited in source order (an array's element type before the array)");
 }
 
-/// Interface: return type of symbolic shape to depth 2 (all shapes incl. maps with two sub-trees), argument type to depth 1.
+/// Interface at the most detailed level: return type of symbolic shape to depth 2 (all 25 shapes incl. maps with two sub-trees).
 #[kani::proof]
-#[kani::unwind(9)]
-fn c15_symbols_interface_d2() {
-    let c: [u8; 10] = kani::any();
+#[kani::unwind(4)]
+fn c15_symbols_interface_return_d2() {
+    let c: [u8; 7] = kani::any();
+    let mut exp = Seq::new();
+    exp.push(3); exp.push(5); exp.push(2); exp.push(50);
     let mut cur = 0usize; let mut id = 100usize;
-    let ret = mk_type(&c, &mut cur, 2, &mut id);
-    let argt = mk_type(&c, &mut cur, 1, &mut id);
-    let ct = leaf(CAT_PRIMITIVE, 90);
+    let ret = mk_type(&c, &mut cur, 2, &mut id, &mut exp);
+    exp.push(62); exp.push(91); exp.push(70); exp.push(90);
     kani::cover!(ret.generic_types.len() == 2 && ret.generic_types[0].generic_types.len() >= 1, "map whose key is itself a container");
     kani::cover!(ret.kind == ast::TypeKind::Array && ret.generic_types[0].kind == ast::TypeKind::Array, "array of arrays");
-    order_body!(interface_tree(ret, argt, ct), 2)
+    let a = interface_tree(ret, leaf(CAT_PRIMITIVE, 91), leaf(CAT_PRIMITIVE, 90));
+    check_walk_all(&a, &exp);
+    std::mem::forget(a);
+}
+
+/// Argument type and constant type of symbolic shape (depth 2 / depth 1).
+#[kani::proof]
+#[kani::unwind(4)]
+fn c15_symbols_interface_arg_const() {
+    let c: [u8; 10] = kani::any();
+    let mut exp = Seq::new();
+    exp.push(3); exp.push(5); exp.push(2); exp.push(50); exp.push(91); exp.push(62);
+    let mut cur = 0usize; let mut id = 100usize;
+    let argt = mk_type(&c, &mut cur, 2, &mut id, &mut exp);
+    exp.push(70);
+    let ct = mk_type(&c, &mut cur, 1, &mut id, &mut exp);
+    kani::cover!(argt.generic_types.len() == 1 && argt.generic_types[0].generic_types.len() == 2, "list of maps as argument type");
+    let a = interface_tree(leaf(CAT_PRIMITIVE, 91), argt, ct);
+    check_walk_all(&a, &exp);
+    std::mem::forget(a);
 }
 
 /// Parcelable: field type to depth 2, constant type to depth 1.
 #[kani::proof]
-#[kani::unwind(9)]
+#[kani::unwind(4)]
 fn c15_symbols_parcelable_d2() {
     let c: [u8; 10] = kani::any();
+    let mut exp = Seq::new();
+    exp.push(3); exp.push(5); exp.push(2); exp.push(50);
     let mut cur = 0usize; let mut id = 100usize;
-    let ft = mk_type(&c, &mut cur, 2, &mut id);
-    let ct = mk_type(&c, &mut cur, 1, &mut id);
+    let ft = mk_type(&c, &mut cur, 2, &mut id, &mut exp);
+    exp.push(70);
+    let ct = mk_type(&c, &mut cur, 1, &mut id, &mut exp);
     kani::cover!(ft.generic_types.len() == 1 && ft.generic_types[0].generic_types.len() == 2, "list of maps");
-    order_body!(parcelable_tree(ft, ct), 2)
+    let a = parcelable_tree(ft, ct);
+    check_walk_all(&a, &exp);
+    std::mem::forget(a);
 }
 
-/// Coarser levels and the enum item: the sub-sequences item / item + members.
+/// The two coarser levels and the enum item: exactly the sub-sequences `item` and `item + direct members`.
 #[kani::proof]
-#[kani::unwind(9)]
+#[kani::unwind(4)]
 fn c15_levels() {
-    let c: [u8; 4] = kani::any();
+    let c: [u8; 3] = kani::any();
     let (kind, level) = (c[0], c[1]);
     kani::assume(kind < 3 && level < 3);
+    let mut exp = Seq::new();
+    if level == 2 { exp.push(3); exp.push(5); }
+    exp.push(2);
     let mut cur = 2usize; let mut id = 100usize;
-    let t = mk_type(&c, &mut cur, 1, &mut id);
-    let a = match kind { 0 => interface_tree(t, leaf(CAT_PRIMITIVE, 91), leaf(CAT_PRIMITIVE, 90)), 1 => parcelable_tree(t, leaf(CAT_PRIMITIVE, 90)), _ => enum_tree(2) };
+    let mut tseq = Seq::new();
+    let t = mk_type(&c, &mut cur, 1, &mut id, &mut tseq);
+    let a = match kind {
+        0 => {
+            if level >= 1 { exp.push(50); }
+            if level == 2 { let mut k = 0; while k < 3 { if k < tseq.n { exp.push(tseq.v[k]); } k += 1; } exp.push(62); exp.push(91); }
+            if level >= 1 { exp.push(70); }
+            if level == 2 { exp.push(90); }
+            interface_tree(t, leaf(CAT_PRIMITIVE, 91), leaf(CAT_PRIMITIVE, 90))
+        }
+        1 => {
+            if level >= 1 { exp.push(50); }
+            if level == 2 { let mut k = 0; while k < 3 { if k < tseq.n { exp.push(tseq.v[k]); } k += 1; } }
+            if level >= 1 { exp.push(70); }
+            if level == 2 { exp.push(90); }
+            parcelable_tree(t, leaf(CAT_PRIMITIVE, 90))
+        }
+        _ => { if level >= 1 { exp.push(50); exp.push(51); } enum_tree() }
+    };
+    let mut n = 0usize; let mut ok = true;
+    traverse::walk_symbols(&a, filter_of(level), |s| { if s.get_range().start.offset != exp.at(n) { ok = false; } n += 1; });
+    assert!(n == exp.n, "each level visits exactly its own symbols");
+    assert!(ok, "coarser levels are the sub-sequences item / item + members, in order");
     kani::cover!(kind == 2 && level == 2, "enum at the most detailed level");
     kani::cover!(kind == 0 && level == 1, "interface with its members only");
-    order_body!(a, level)
+    std::mem::forget(a);
 }
 
-/// find_symbol returns the first visited symbol satisfying the predicate -- for every node of the tree, the package included --
-/// and None when nothing matches; filter_symbols returns exactly the matching symbols in visit order.
+/// find_symbol returns the FIRST visited symbol satisfying the predicate -- for every node, the package included -- and None when
+/// nothing matches; filter_symbols returns exactly the visited symbols that satisfy it.
 #[kani::proof]
-#[kani::unwind(9)]
+#[kani::unwind(4)]
 fn c15_find_and_filter() {
-    let c: [u8; 6] = kani::any();
-    let level = c[0];
-    kani::assume(level < 3);
-    let mut cur = 2usize; let mut id = 100usize;
-    let ret = mk_type(&c, &mut cur, 2, &mut id);
-    let a = interface_tree(ret, leaf(CAT_PRIMITIVE, 91), leaf(CAT_PRIMITIVE, 90));
+    let c: [u8; 9] = kani::any();
+    let k = c[0] as usize;
     let mut exp = Seq::new();
-    ref_symbols(&a, level, &mut exp);
-    let k = c[1] as usize;
+    exp.push(3); exp.push(5); exp.push(2); exp.push(50);
+    let mut cur = 2usize; let mut id = 100usize;
+    let ret = mk_type(&c, &mut cur, 2, &mut id, &mut exp);
+    exp.push(62); exp.push(91); exp.push(70); exp.push(90);
+    let a = interface_tree(ret, leaf(CAT_PRIMITIVE, 91), leaf(CAT_PRIMITIVE, 90));
     kani::assume(k <= exp.n && k < CAP);
-    // target = id of the k-th node in the reference order (k == n: an id that no node carries)
+    // predicate 'is the node with the k-th id' (k == n: an id no node carries)
     let target = if k < exp.n { exp.v[k] } else { 9999 };
-    let f = traverse::find_symbol(&a, filter_of(level), |s| s.get_range().start.offset == target);
+    let f = traverse::find_symbol(&a, SymbolFilter::All, |s| s.get_range().start.offset == target);
     if k < exp.n {
         assert!(f.is_some(), "find_symbol finds every visited symbol (the package included)");
         if let Some(s) = f { assert!(s.get_range().start.offset == target, "find_symbol returns a symbol satisfying the predicate"); }
     } else {
         assert!(f.is_none(), "find_symbol returns None when nothing matches");
     }
-    let v = traverse::filter_symbols(&a, filter_of(level), |s| s.get_range().start.offset == target);
-    assert!(v.len() == (k < exp.n) as usize, "filter_symbols returns exactly the matching symbols");
-    // predicate 'is at or after the k-th': find returns the k-th, filter returns the tail
+    // predicate 'is at or after the k-th visit': find returns the k-th in visit order
     let mut cnt = 0usize;
-    let f2 = traverse::find_symbol(&a, filter_of(level), |_s| { cnt += 1; cnt > k });
-    if k < exp.n { assert!(f2.is_some()); if let Some(s) = f2 { assert!(s.get_range().start.offset == exp.v[k], "find_symbol returns the FIRST match in visit order"); } }
-    else { assert!(f2.is_none()); }
-    kani::cover!(k == 0 && level == 2, "predicate selects the package");
+    let f2 = traverse::find_symbol(&a, SymbolFilter::All, |_s| { cnt += 1; cnt > k });
+    if k < exp.n { assert!(f2.is_some(), "find_symbol finds the first match"); if let Some(s) = f2 { assert!(s.get_range().start.offset == exp.v[k], "find_symbol returns the FIRST match in visit order"); } }
+    else { assert!(f2.is_none(), "find_symbol returns None when the predicate never holds"); }
+    let v = traverse::filter_symbols(&a, SymbolFilter::All, |s| s.get_range().start.offset == target);
+    assert!(v.len() == (k < exp.n) as usize, "filter_symbols returns exactly the matching symbols");
+    kani::cover!(k == 0, "predicate selects the package");
     kani::cover!(k == exp.n, "predicate selects nothing");
+    kani::cover!(k >= 6 && k < exp.n, "predicate selects a nested type");
     std::mem::forget(v);
+    std::mem::forget(a);
+}
+
+/// Coarser levels of find_symbol: the item is found at every level, members from ItemsAndItemElements on, the package only at All.
+#[kani::proof]
+#[kani::unwind(4)]
+fn c15_find_levels() {
+    let c: [u8; 2] = kani::any();
+    let (level, which) = (c[0], c[1]);
+    kani::assume(level < 3 && which < 4);
+    let a = interface_tree(leaf(CAT_PRIMITIVE, 92), leaf(CAT_PRIMITIVE, 91), leaf(CAT_PRIMITIVE, 90));
+    let target = match which { 0 => 3usize, 1 => 2, 2 => 50, _ => 92 };
+    let visible = match which { 0 => level == 2, 1 => true, 2 => level >= 1, _ => level == 2 };
+    let f = traverse::find_symbol(&a, filter_of(level), |s| s.get_range().start.offset == target);
+    assert!(f.is_some() == visible, "find_symbol sees exactly the symbols its level visits");
+    kani::cover!(which == 0 && level == 2, "package at level All");
     std::mem::forget(a);
 }
 
 /// walk_types / walk_methods / walk_args yield every type (any depth), method and argument in source order.
 #[kani::proof]
-#[kani::unwind(9)]
+#[kani::unwind(4)]
 fn c15_walk_types_methods_args() {
     let c: [u8; 10] = kani::any();
-    let mut cur = 0usize; let mut id = 100usize;
-    let ret = mk_type(&c, &mut cur, 2, &mut id);
-    let argt = mk_type(&c, &mut cur, 1, &mut id);
-    let a = interface_tree(ret, argt, leaf(CAT_PRIMITIVE, 90));
     let mut exp = Seq::new();
-    if let ast::Item::Interface(ref it) = a.item {
-        if let ast::InterfaceElement::Method(ref m) = it.elements[0] { ref_type(&m.return_type, &mut exp); ref_type(&m.args[0].arg_type, &mut exp); }
-        if let ast::InterfaceElement::Const(ref k) = it.elements[1] { ref_type(&k.const_type, &mut exp); }
-    }
-    let mut got = Seq::new();
-    traverse::walk_types(&a, |t| got.push(t.symbol_range.start.offset));
-    assert_same(&got, &exp);
+    let mut cur = 0usize; let mut id = 100usize;
+    let ret = mk_type(&c, &mut cur, 2, &mut id, &mut exp);
+    let argt = mk_type(&c, &mut cur, 1, &mut id, &mut exp);
+    exp.push(90);
+    let a = interface_tree(ret, argt, leaf(CAT_PRIMITIVE, 90));
+    let mut n = 0usize; let mut ok = true;
+    traverse::walk_types(&a, |t| { if t.symbol_range.start.offset != exp.at(n) { ok = false; } n += 1; });
+    assert!(n == exp.n, "walk_types yields every type node at any depth exactly once");
+    assert!(ok, "walk_types yields types in source order (element before array)");
     let mut nm = 0usize; let mut mid = 0usize;
     traverse::walk_methods(&a, |m| { nm += 1; mid = m.symbol_range.start.offset; });
     assert!(nm == 1 && mid == 50, "walk_methods yields the method (and not the constant)");
@@ -230,49 +261,35 @@ fn c15_walk_types_methods_args() {
     std::mem::forget(a);
 }
 
-/// walk_types on a parcelable (field + constant).
 #[kani::proof]
-#[kani::unwind(9)]
+#[kani::unwind(4)]
 fn c15_walk_types_parcelable() {
     let c: [u8; 10] = kani::any();
-    let mut cur = 0usize; let mut id = 100usize;
-    let ft = mk_type(&c, &mut cur, 2, &mut id);
-    let ct = mk_type(&c, &mut cur, 1, &mut id);
-    let a = parcelable_tree(ft, ct);
     let mut exp = Seq::new();
-    if let ast::Item::Parcelable(ref p) = a.item {
-        if let ast::ParcelableElement::Field(ref f) = p.elements[0] { ref_type(&f.field_type, &mut exp); }
-        if let ast::ParcelableElement::Const(ref k) = p.elements[1] { ref_type(&k.const_type, &mut exp); }
-    }
-    let mut got = Seq::new();
-    traverse::walk_types(&a, |t| got.push(t.symbol_range.start.offset));
-    assert_same(&got, &exp);
+    let mut cur = 0usize; let mut id = 100usize;
+    let ft = mk_type(&c, &mut cur, 2, &mut id, &mut exp);
+    let ct = mk_type(&c, &mut cur, 1, &mut id, &mut exp);
+    let a = parcelable_tree(ft, ct);
+    let mut n = 0usize; let mut ok = true;
+    traverse::walk_types(&a, |t| { if t.symbol_range.start.offset != exp.at(n) { ok = false; } n += 1; });
+    assert!(n == exp.n, "walk_types yields every type node at any depth exactly once");
+    assert!(ok, "walk_types yields types in source order (element before array)");
     kani::cover!(exp.n >= 5, "nested types present");
     std::mem::forget(a);
 }
 
-/// Thorough: depth-3 spine (array/list chains, maps with one deep child) in the return type.
-pub fn mk_spine(c: &[u8], cur: &mut usize, depth: u8, id: &mut usize) -> ast::Type {
-    let ch = if *cur < c.len() { c[*cur] } else { 0 };
-    *cur += 1;
-    *id += 1;
-    let my = *id;
-    if depth == 0 || ch == 0 || ch > 4 { return leaf(CAT_PRIMITIVE, my); }
-    let a = mk_spine(c, cur, depth - 1, id);
-    match ch {
-        1 => container(ast::TypeKind::Array, vec![a], my),
-        2 => container(ast::TypeKind::List, vec![a], my),
-        3 => { *id += 1; container(ast::TypeKind::Map, vec![leaf(CAT_PRIMITIVE, *id), a], my) }
-        _ => { *id += 1; container(ast::TypeKind::Map, vec![a, leaf(CAT_PRIMITIVE, *id)], my) }
-    }
-}
-
+/// Thorough: depth-3 spine in the return type.
 #[kani::proof]
-#[kani::unwind(9)]
+#[kani::unwind(5)]
 fn c15_symbols_spine_d3() {
     let c: [u8; 4] = kani::any();
+    let mut exp = Seq::new();
+    exp.push(3); exp.push(5); exp.push(2); exp.push(50);
     let mut cur = 0usize; let mut id = 100usize;
-    let ret = mk_spine(&c, &mut cur, 3, &mut id);
-    kani::cover!(ret.generic_types.len() >= 1 && ret.generic_types[0].generic_types.len() >= 1 && ret.generic_types[0].generic_types[0].generic_types.len() >= 1, "depth 3 reached");
-    order_body!(interface_tree(ret, leaf(CAT_PRIMITIVE, 91), leaf(CAT_PRIMITIVE, 90)), 2)
+    let ret = mk_spine(&c, &mut cur, 3, &mut id, &mut exp);
+    exp.push(62); exp.push(91); exp.push(70); exp.push(90);
+    kani::cover!(c[0] >= 1 && c[0] <= 4 && c[1] >= 1 && c[1] <= 4 && c[2] >= 1 && c[2] <= 4, "depth 3 reached");
+    let a = interface_tree(ret, leaf(CAT_PRIMITIVE, 91), leaf(CAT_PRIMITIVE, 90));
+    check_walk_all(&a, &exp);
+    std::mem::forget(a);
 }
